@@ -37,18 +37,21 @@ def replay_state(chk, st, cplx, n, tapers, lambdas):
         if bad:
             chk.violation('C19:pmtm:%s:%s:%s' % (method, mode, bad.split(' ')[0]),
                           'pmtm(x=%s, method=%s) with supplied tapers: %s' % (xa.tolist(), method, bad), dict(case, observed={'Sk': Sk, 'w': w}))
-        ok, obj = call_guard(lambda: MultiTapering(xa.copy(), e=lambdas.copy(), v=tapers.copy(), NFFT=4, method=method, scale_by_freq=False))
-        if ok:
-            ok, psd = call_guard(lambda: np.array(obj.psd))
-        if not ok:
-            chk.violation('C19:MultiTapering:%s:%s:raises' % (method, mode), 'MultiTapering(e=, v=) raises', case)
-            continue
-        exp = expP if cplx else 2 * expP[:3]
-        bad = cmp_vec(psd, exp, tol=1e-9, name='psd')
-        if bad:
-            chk.violation('C19:MultiTapering:%s:%s:values' % (method, mode),
-                          'MultiTapering(x=%s, method=%s).psd is not the mean of weight*|eigenspectrum|^2: %s' % (xa.tolist(), method, bad),
-                          dict(case, expect=exp, observed=psd))
+        # supplied tapers are the tapers used, whether or not NW / k are passed along with them
+        for extra in ({}, {'NW': 1.0}, {'NW': 1.0, 'k': K}):
+            tag = '' if not extra else ':with-' + '-'.join(sorted(extra))
+            ok, obj = call_guard(lambda: MultiTapering(xa.copy(), e=lambdas.copy(), v=tapers.copy(), NFFT=4, method=method, scale_by_freq=False, **extra))
+            if ok:
+                ok, psd = call_guard(lambda: np.array(obj.psd))
+            if not ok:
+                chk.violation('C19:MultiTapering:%s:%s:raises%s' % (method, mode, tag), 'MultiTapering(e=, v=%s) raises %r' % (extra, obj if not ok else psd), case)
+                continue
+            exp = expP if cplx else 2 * expP[:3]
+            bad = cmp_vec(psd, exp, tol=1e-9, name='psd')
+            if bad:
+                chk.violation('C19:MultiTapering:%s:%s:values%s' % (method, mode, tag),
+                              'MultiTapering(x=%s, method=%s, e=, v=, %s).psd is not the mean of weight*|eigenspectrum|^2 of the supplied tapers: %s'
+                              % (xa.tolist(), method, extra, bad), dict(case, expect=exp, observed=psd, extra=extra))
     chk.replayed += 1
     chk.count('multitaper-' + mode, 'replayed')
     chk.sample('multitaper-' + mode, {'x': st['x'], 'eig': out['eig'], 'unity': out['unity']}, 1)
@@ -78,6 +81,8 @@ def obs_events(chk):
     reps = 8 if chk.tier == 'quick' else 60
     # directed corner cases first (single taper, default k, k = 2NW), then random ones
     directed = [(32, 1.0, 1, False), (32, 1.0, 1, True), (33, 2.0, 1, True), (24, 1.5, 3, False), (40, 2.5, 5, True), (16, 2.0, 4, False)]
+    # more tapers than 2NW requested explicitly: the caller gets as many eigenspectra as asked for
+    directed += [(32, 2.0, 6, False), (33, 1.5, 5, True), (64, 2.5, 7, False)]
     for rep in range(reps + len(directed)):
         if rep < len(directed):
             N, NW, k, cplx = directed[rep]
